@@ -1770,12 +1770,18 @@ def c06_r2_handover(ctx):
     if f is not None:
         fc = ctx.sites(f, 'TableTreeMut::flush_and_close', exact=1)
         ru = ctx.sites(f, TM + '::record_unpersisted_data_freed', exact=1)
-        sd = ctx.sites(f, WT + '::store_data_freed_pages', exact=1)
+        # the Immediate arm stores through the one-line wrapper store_data_freed_pages, or (wrapper
+        # inlined) calls store_data_freed_pages_for itself
+        wrapped = ctx.has_fn(WT + '::store_data_freed_pages')
+        sd = ctx.sites(f, WT + ('::store_data_freed_pages' if wrapped else '::store_data_freed_pages_for'), exact=1)
         ctx.must_pass(f, ru + sd, start=fc[0] if fc else None, what='every success path records the freed data pages (in memory or in DATA_FREED_TABLE)')
         for p in ru:
             ctx.flows(f, p, 2, from_call='TableTreeMut::flush_and_close')
         for p in sd:
-            ctx.flows(f, p, 1, from_call='TableTreeMut::flush_and_close')
+            ctx.flows(f, p, 1 if wrapped else 2, from_call='TableTreeMut::flush_and_close')
+            if not wrapped:
+                d_ = core.sym(f).describe(core.sym(f).operand(p.call.t['a'][1])) if p.call.t['a'][1][0] != 'k' else ''
+                ctx.check(d_.endswith('transaction_id'), 'flow|%s|own-id' % f.path, 'the freed pages are stored under self.transaction_id (found `%s`)' % d_, f, p.line)
         # exactly one of them on a path: they sit on different arms of the durability match
         if ru and sd:
             r1 = core.reach(f, start=(ru[0].bb, ru[0].idx))
@@ -1801,7 +1807,7 @@ def c06_r2_handover(ctx):
         ctx.must_pass(f, ra, start=cm[0] if cm else None, what='a non-durable commit always records its allocations in memory')
         for p in cm:
             ctx.flows(f, p, 4, from_call=PA + '::take_allocated_since_commit', what='newly unpersisted set = pages allocated since the last commit')
-    f = ctx.fn(WT + '::store_data_freed_pages')
+    f = ctx.fn(WT + '::store_data_freed_pages') if ctx.has_fn(WT + '::store_data_freed_pages') else None
     if f is not None:
         s_ = ctx.sites(f, WT + '::store_data_freed_pages_for', exact=1)
         for p in s_:
@@ -1835,6 +1841,37 @@ def c06_r3_durable_drains(ctx):
         ctx.must_pass(f, we, what='allocations are written to DATA_ALLOCATED_TABLE on every success path')
 
 
+
+def const_names_at(ctx, points, pattern, argidx, depth=2):
+    """names of the constant operands passed as argument `argidx` to `pattern` at the given sites.
+    A site that is a call of a local helper (counted through a must-call summary) is followed into
+    the helper, so that extracting the statements around the call does not lose the constant."""
+    names = set()
+
+    def visit(fn, call, d):
+        if call.matches(pattern):
+            a = call.t['a'][argidx] if argidx < len(call.t['a']) else None
+            names.add(a[3] if a is not None and a[0] == 'k' and len(a) > 3 else None)
+            return
+        if d <= 0 or not call.callee:
+            names.add(None)
+            return
+        try:
+            g = ctx.facts.fn(call.callee)
+        except core.AnchorError:
+            names.add(None)
+            return
+        inner = [c for fam in g.family() for c in fam.calls_to(pattern)]
+        if not inner:
+            names.add(None)
+        for c in inner:
+            visit(c.fn, c, d - 1)
+
+    for p_ in points:
+        visit(p_.fn, p_.call, depth)
+    return names
+
+
 def c06_r4_rebuild(ctx):
     ctx.set_rule('C06.R4', 'the allocator rebuild uses the same ownership rule')
     f = ctx.fn('Database::rebuild_allocator_state')
@@ -1846,16 +1883,24 @@ def c06_r4_rebuild(ctx):
         ctx.order(f, rs, va + vf + up)
         for x in va + vf + up:
             ctx.must_pass(f, [x], what='every successful rebuild passes %s' % x.desc)
-        names = set()
-        for p in vf:
-            a = p.call.t['a'][1]
-            names.add(a[3] if a[0] == 'k' and len(a) > 3 else None)
+        names = const_names_at(ctx, vf, 'Database::visit_freed_tree', 1)
         ctx.check(names == {'transactions::DATA_FREED_TABLE', 'transactions::SYSTEM_FREED_TABLE'}, 'const|visit_freed_tree', 'both freed tables (DATA_FREED_TABLE, SYSTEM_FREED_TABLE) are walked (found %s)' % sorted(str(n) for n in names), f, f.line)
         mk = ctx.sites(f, TM + '::mark_page_allocated', floor=5, family=True)
-        direct = ctx.sites(f, TM + '::mark_page_allocated', exact=1)
-        for p in direct:
-            ctx.flows(f, p, 1, from_call=TM + '::unpersisted_data_freed_pages')
-        ctx.each_iteration_passes(f, direct, 'every in-memory pending-free page is marked allocated by the rebuild', 'pending-free-skipped')
+        if f.calls_to(TM + '::mark_page_allocated'):
+            direct = ctx.sites(f, TM + '::mark_page_allocated', exact=1)
+            for p in direct:
+                ctx.flows(f, p, 1, from_call=TM + '::unpersisted_data_freed_pages')
+            ctx.each_iteration_passes(f, direct, 'every in-memory pending-free page is marked allocated by the rebuild', 'pending-free-skipped')
+        else:
+            # the same loop written as `pages.into_iter().try_for_each(|p| mem.mark_page_allocated(p))?`
+            tf = [cpoint(c) for c in f.calls if c.matches(('Iterator::try_for_each', 'Iterator::for_each')) and not f.blocks[c.bb]['c']
+                  and c.t['a'] and c.t['a'][0][0] != 'k' and core.flows_from_call(f, c.t['a'][0], TM + '::unpersisted_data_freed_pages')]
+            ok_ = len(tf) == 1
+            ctx._ob(ok_, ctx.sample('sites', f, f.line, 'the in-memory pending-free pages are iterated'))
+            if not ok_:
+                ctx.violate('floor|%s|pending-free-iteration' % f.path, 'expected one loop (or try_for_each) over unpersisted_data_freed_pages that marks each page allocated, found %d' % len(tf), f, f.line)
+            else:
+                ctx.must_pass(f, tf, what='every successful rebuild marks the in-memory pending-free pages')
         # every closure passed to a walker marks the page
         for cl in f.closures:
             if cl.calls_to(TM + '::mark_page_allocated'):
@@ -1915,10 +1960,7 @@ def c06_r6_restore(ctx):
         bad_ = [bb for bb in calls_ if core.CallSite(f, bb, f.blocks[bb]['t']).matches(('TransactionId::next', 'TransactionId::new'))]
         ctx.check(not bad_, 'flow|%s|exclusive-bound' % f.path, 'unpersisted_allocations_after receives the savepoint transaction id itself (it is exclusive), not an id advanced by next()', f, p.line)
     opens = ctx.sites(f, 'SystemNamespace::open_system_table', exact=2)
-    names = set()
-    for p in opens:
-        a = p.call.t['a'][1]
-        names.add(a[3] if a[0] == 'k' and len(a) > 3 else None)
+    names = const_names_at(ctx, opens, 'SystemNamespace::open_system_table', 1)
     ctx.check(names == {'transactions::DATA_FREED_TABLE', 'transactions::DATA_ALLOCATED_TABLE'}, 'const|restore-tables', 'restore purges DATA_FREED_TABLE and scans DATA_ALLOCATED_TABLE (found %s)' % sorted(str(n) for n in names), f, f.line)
     st = ctx.stores(f, 'restored_transaction', owner='WriteTransaction')
     ctx.must_pass(f, st, what='successful restore records the restored transaction')
@@ -3076,7 +3118,7 @@ def c16_rules(ctx):
                 if fx is not None and core.name_matches('WriteTransaction::store_data_freed_pages_for', fx.names):
                     # &self helper: its callers must be exclusive
                     cs = ctx.facts.callers_of('WriteTransaction::store_data_freed_pages_for')
-                    okc = all(any(core.name_matches(e, core.alt_names(p)) for e in ('WriteTransaction::durable_commit', 'WriteTransaction::store_data_freed_pages')) for p in cs)
+                    okc = all(any(core.name_matches(e, core.alt_names(p)) for e in ('WriteTransaction::durable_commit', 'WriteTransaction::store_data_freed_pages', 'WriteTransaction::commit_inner_helper')) for p in cs)
                     ctx.check(okc, 'exclusive-callers|store_data_freed_pages_for', 'store_data_freed_pages_for is only reached from the commit path (callers: %s)' % sorted(cs))
     for (h, a, why) in FORBIDDEN:
         ctx.check((h, a) not in seen, 'forbidden-nesting|%s|%s' % (h, a), 'forbidden lock order absent: %s' % why)
@@ -3240,6 +3282,20 @@ def refcount_rules(ctx):
         f = ctx.fn(TT + '::' + nm)
         if f is None:
             continue
+        outer, via = f, None
+        if not f.calls_to(['Entry::or_insert', 'Entry::or_default']):
+            # the increment extracted into a private helper (`state.add_reference(id)`): analyse the
+            # helper's body, and the lock at the helper's call site
+            for c in f.calls:
+                if f.blocks[c.bb]['c'] or not c.callee or not ctx.facts.has_fn(c.callee):
+                    continue
+                try:
+                    g = ctx.facts.fn(c.callee)
+                except core.AnchorError:
+                    continue
+                if g.calls_to(['Entry::or_insert', 'Entry::or_default']) and g.calls_to('BTreeMap::entry'):
+                    f, via = g, cpoint(c)
+                    break
         # two equivalent idioms: entry(id).and_modify(|x| *x += 1).or_insert(1)  |  *entry(id).or_insert(0) += 1
         am = [cpoint(c) for c in f.calls_to('Entry::and_modify')]
         oi = ctx.sites(f, ['Entry::or_insert', 'Entry::or_default'], exact=1)
@@ -3254,7 +3310,11 @@ def refcount_rules(ctx):
                 if p_.call.matches('Entry::or_insert'):
                     ctx.const_arg(f, p_, 1, 0, 'a missing entry counts as 0 before the increment')
             ctx.check(has_bin(f, ('Add', 'AddWithOverflow'), 1), 'refcount|%s|increment' % f.path, '%s increments the (possibly fresh) count by one' % nm, f, f.line)
-        ctx.held(f, am + oi, TTSTATE)
+        if via is not None:
+            ctx.held(outer, [via], TTSTATE)
+            ctx.must_pass(f, oi, exits='any', what='the helper always performs the increment')
+        else:
+            ctx.held(f, am + oi, TTSTATE)
     for nm in ('deallocate_read_transaction', 'clear_pending_non_durable_commits'):
         f = ctx.fn(TT + '::' + nm)
         if f is None:
@@ -3273,9 +3333,27 @@ def refcount_rules(ctx):
                 if d.endswith('.live_read_transactions'):
                     own.add(ctx.facts.root_of(f_).path)
     exp = {TT + '::' + x for x in ('register_read_transaction', 'register_non_durable_commit', 'register_persistent_savepoint', 'deallocate_read_transaction', 'clear_pending_non_durable_commits')}
+    def _confirmed(path, depth=2):
+        if any(core.name_matches(e, core.alt_names(path)) for e in exp):
+            return True
+        if depth <= 0:
+            return False
+        # a private helper all of whose callers are confirmed writers is part of them
+        try:
+            g_ = ctx.facts.fn(path)
+        except core.AnchorError:
+            return False
+        cs_ = ctx.facts.callers_of(path)
+        return bool(cs_) and all(_confirmed(c_, depth - 1) for c_ in cs_)
     for p_ in sorted(own):
-        ctx.check(any(core.name_matches(e, core.alt_names(p_)) for e in exp), 'new-writer|live_read_transactions|%s' % p_, '`%s` mutates TransactionTracker.live_read_transactions (confirmed writers: the five registration/release functions)' % p_)
-    ctx.check(len(own) >= 5, 'floor|live_read_transactions-writers', 'the five confirmed writers of live_read_transactions were found (%d)' % len(own))
+        ctx.check(_confirmed(p_), 'new-writer|live_read_transactions|%s' % p_, '`%s` mutates TransactionTracker.live_read_transactions (confirmed writers: the five registration/release functions)' % p_)
+    covered = set()
+    for p_ in own:
+        if any(core.name_matches(e, core.alt_names(p_)) for e in exp):
+            covered.add(p_)
+        else:
+            covered |= {c_ for c_ in ctx.facts.callers_of(p_) if any(core.name_matches(e, core.alt_names(c_)) for e in exp)}
+    ctx.check(len(covered) >= 5, 'floor|live_read_transactions-writers', 'the five confirmed writers of live_read_transactions were found (%d)' % len(covered))
 
 
 # ------------------------------------------------------------------------------------ retained checksums (C10)
@@ -3775,10 +3853,15 @@ def system_freed_store_rules(ctx):
             r = core.reach(f, cut_blocks={p.bb for p in fl})
             ctx.check(st[0].bb not in r['term'], 'order|%s|flush-before-store' % f.path, 'system table roots are flushed before the system freed list is examined and stored', f, st[0].line)
         vp = [cpoint(c) for c in f.calls_to('Vec::push')]
-        ctx.check(len(vp) == 1, 'floor|%s|post-commit-push' % f.path, 'unpersisted system pages are collected for release after the commit', f, f.line)
+        # the same collection written as `vec.extend(list.extract_if(..))`
+        ve = [cpoint(c) for c in f.calls if c.matches(('Extend::extend', 'Vec::extend')) and not f.blocks[c.bb]['c'] and len(c.t['a']) > 1
+              and c.t['a'][1][0] != 'k' and core.flows_from_call(f, c.t['a'][1], 'extract_if')]
+        ctx.check(len(vp) + len(ve) == 1, 'floor|%s|post-commit-push' % f.path, 'unpersisted system pages are collected for release after the commit', f, f.line)
         fu = ctx.sites(f, TM + '::free_if_unpersisted', exact=1)
-        if vp:
+        if vp and not ve:
             ctx.each_iteration_passes(f, vp, 'every unpersisted freed system page is collected for the post-commit release', 'unpersisted-dropped', allow_return=True)
+        if ve:
+            ctx.must_pass(f, ve, exits='success', what='the unpersisted freed system pages are collected for the post-commit release')
         if fu:
             ctx.each_iteration_passes(f, fu, 'every collected page is released after the commit', 'post-commit-free-skipped', allow_return=True)
         cm = ctx.sites(f, TM + '::non_durable_commit', exact=1)
@@ -5116,11 +5199,17 @@ def survey2_rules(ctx):
     f = ctx.fn(TM + '::load_allocator_state')
     if f is not None:
         pu = [cpoint(c) for c in f.calls_to('Vec::push')]
-        ctx.check(len(pu) == 1, 'floor|%s|push' % f.path, 'load_allocator_state collects the region allocators', f, f.line)
+        # the same collection written as `tree.range(..)?.map(|r| .. from_bytes ..).collect()`
+        co = [cpoint(c) for c in f.calls if c.matches('Iterator::collect') and not f.blocks[c.bb]['c'] and c.t['a'] and c.t['a'][0][0] != 'k'
+              and core.flows_from_call(f, c.t['a'][0], 'Btree::range')] if not pu else []
+        ctx.check(len(pu) + len(co) == 1, 'floor|%s|push' % f.path, 'load_allocator_state collects the region allocators', f, f.line)
         if pu:
             ctx.each_iteration_passes(f, pu, 'every stored region allocator is loaded', 'region-not-loaded')
             for p in pu:
                 ctx.flows(f, p, 1, from_call=BA + '::from_bytes')
+        if co:
+            ctx.must_pass(f, co, exits='success', what='the stored region allocators are collected')
+            ctx.check(len(f.family_calls_to(BA + '::from_bytes')) >= 1, 'floor|%s|from_bytes' % f.path, 'each collected element is decoded with BuddyAllocator::from_bytes', f, f.line)
         iv = ctx.sites(f, TM + '::is_valid_allocator_state', exact=1)
         rz = ctx.sites(f, 'Allocators::resize_to', exact=1)
         ctx.must_pass(f, rz, exits='success', what='loaded allocators are resized to the current layout')
